@@ -335,6 +335,35 @@ int main(int argc, char** argv) {
     // ranges - division by zero on the unchanged tree - and are not part of C05's precondition)
     CASE("arange_wrongway", {0}, [=] { sink(arange(0, 5, -1)); sink(arange(5.0, 0.0, 0.25)); });
     CASE("from_file_missing", {0}, [=] { sink(from_file("/nonexistent/dir/no-such-file.bin")); });
+    // measurement functions on a precomputed (quantised, fixed-point style) spectrum: lobes with flat tops, plateaus, ties
+    for (int shape = 0; shape < 6; ++shape) {
+        for (int ty = 0; ty < 2; ++ty) {
+            CASE("meas_quantised", {shape, ty}, [=] {
+                const int n = 64;
+                arr_real sp(n);
+                for (int i = 0; i < n; ++i) {
+                    const double l1 = 40.0 / (1.0 + (i - 9.5) * (i - 9.5));          // flat top between bins 9 and 10
+                    const double l2 = 12.0 / (1.0 + (i - 19.5) * (i - 19.5));
+                    const double l3 = 6.0 / (1.0 + (i - 29.0) * (i - 29.0));
+                    double v = l1 + l2 + l3 + 0.6;
+                    switch (shape) {
+                    case 0: v = std::floor(v); break;                 // integer power units
+                    case 1: v = std::floor(4 * v) / 4; break;
+                    case 2: v = std::round(10 * std::log10(v + 1)); break;   // dB rounded
+                    case 3: v = (i >= 8 && i <= 12) ? 7.0 : 1.0; break;      // a plateau
+                    case 4: v = (i % 2) ? 3.0 : 3.0; break;                  // everything equal
+                    default: v = (i == 9 || i == 10 || i == 40 || i == 41) ? 5.0 : 0.0;   // twin bins on a zero floor
+                    }
+                    sp[i] = v;
+                }
+                const auto st = ty ? SinadType::Power : SinadType::Psd;
+                g_sink = sinad(sp, st);
+                g_sink += thd(sp, 4, false, st).value;
+                g_sink += snr(sp, 4, false, st);
+                g_sink += thd(sp, 4, true, st).value;
+            });
+        }
+    }
     CASE("medianfilter_small", {2}, [=] { MedianFilter m(2); });
     CASE("downsample0", {0}, [=] { sink(downsample(R(5), 0)); });
     CASE("upsample0", {0}, [=] { sink(upsample(R(5), 0)); });
